@@ -11,6 +11,10 @@ CLAIMED = {
          "resolved call graph, finite-domain propagation of validated enums into dispatchers, raise-site and implicit-None "
          "audit, profile-layout discipline, choice-statement typestate", "4 C04",
          "ast dataflow + call-graph lints (R-NULL, R-SIG, R-ENUM, R-RAISE/R-RET, R-LAYOUT, R-TS)"),
+ "C20": ("decision tables of the validation prefix of Shaper.__init__/shex_graph extracted by abstract evaluation and compared "
+         "row by row with the reference predicate (complete for each argument group against a valid default of the others); "
+         "dominance of the validation prefix; accepted enum values and graph sources are handled by every consumer", "4 C20",
+         "decision-table extraction by abstract evaluation of the AST + finite-domain propagation + value-flow reachability (R-TABLE, R-ORDER, R-ENUM)"),
 }
 NA_REASON = {
  "C08": "relates the outputs of different parsers (rdflib readers, two hand-written scanners, TSV splitter, decompressors) on "
